@@ -133,7 +133,9 @@ func Exec(r Run) (*Result, error) {
 	if r.Workers > 0 {
 		w = strconv.Itoa(r.Workers)
 	}
-	args := []string{"-XX:+UseParallelGC", "-Dfile.encoding=UTF-8", "-Dstdout.encoding=UTF-8", "-Dsun.stdout.encoding=UTF-8"}
+	jtmp := filepath.Join(scratch, "jtmp") // TLC leaves tlc-* directories in java.io.tmpdir: keep them in the scratch directory
+	os.MkdirAll(jtmp, 0o755)
+	args := []string{"-XX:+UseParallelGC", "-Djava.io.tmpdir=" + jtmp, "-Dfile.encoding=UTF-8", "-Dstdout.encoding=UTF-8", "-Dsun.stdout.encoding=UTF-8"}
 	if r.Stack != "" {
 		args = append(args, "-Xss"+r.Stack)
 	}
